@@ -53,9 +53,22 @@ type entCase struct {
 	Entropy h.B    `json:"entropy"`
 }
 
+// a rejected SetWordList call (unknown list) must leave the selected list in place
+func rejectedSelection() error {
+	for _, name := range []string{"no-such-list", "English", ""} {
+		if err := bip39.SetWordList(name); err == nil {
+			return fmt.Errorf("SetWordList(%q) succeeded; there is no such list", name)
+		}
+	}
+	return nil
+}
+
 func checkEntropy(c entCase) (h.Info, error) {
 	if err := bip39.SetWordList(c.Lang); err != nil {
 		return h.Info{}, fmt.Errorf("SetWordList(%q): %v", c.Lang, err)
+	}
+	if err := rejectedSelection(); err != nil {
+		return h.Info{}, err
 	}
 	e := []byte(c.Entropy)
 	l := list(c.Lang)
@@ -187,6 +200,9 @@ type sentCase struct {
 
 func checkSentence(c sentCase) (h.Info, error) {
 	if err := bip39.SetWordList(c.Lang); err != nil {
+		return h.Info{}, err
+	}
+	if err := rejectedSelection(); err != nil {
 		return h.Info{}, err
 	}
 	l := list(c.Lang)
